@@ -8,6 +8,7 @@ import (
 	"sort"
 	"strings"
 	"sync"
+	"sync/atomic"
 	"time"
 
 	"go.opentelemetry.io/otel/attribute"
@@ -729,8 +730,391 @@ func directCoq(sc scenario, res *resultJ) string {
 
 func dstormCoq(sc scenario, rd roundJ) string {
 	errs := func(e []string) string { return "[" + strings.Join(e, ";") + "]" }
+	if sc.Kind == "dslow" {
+		return fmt.Sprintf("CDStorm2 true %s %d %s", intsCoq(rd.XShut), rd.PShut[0], errs(rd.ShutErrs))
+	}
 	if sc.Kind == "rstorm" {
 		return fmt.Sprintf("CStormM [%s] %s %s %s %s", kindCoq(sc.Kinds[0]), intsCoq(rd.XShut), errs(rd.ShutErrs), errs(rd.FlushErrs), errs(rd.CollectAfter))
 	}
 	return fmt.Sprintf("CDStorm %v %d %s", hasExporter(sc.Kinds[0]), rd.XShut[0], errs(rd.ShutErrs))
+}
+
+// ---- re-entrant components: a callback that calls back into its own provider ----
+
+type reentState struct {
+	depth int // nested provider calls are made from the outermost callback only
+	nest  []nestJ
+	do    func(call string)
+}
+
+func (r *reentState) enter(cb string) {
+	if r.depth > 0 {
+		return
+	}
+	r.depth++
+	for _, n := range r.nest {
+		if n.CB == cb {
+			r.do(n.Call)
+		}
+	}
+	r.depth--
+}
+
+type reentSpanProc struct {
+	countProc
+	st *reentState
+}
+
+func (p *reentSpanProc) OnEnd(s sdktrace.ReadOnlySpan) { p.countProc.OnEnd(s); p.st.enter("onend") }
+func (p *reentSpanProc) ForceFlush(ctx context.Context) error {
+	_ = p.countProc.ForceFlush(ctx)
+	p.st.enter("flush")
+	return nil
+}
+func (p *reentSpanProc) Shutdown(ctx context.Context) error {
+	_ = p.countProc.Shutdown(ctx)
+	p.st.enter("shutdown")
+	return nil
+}
+
+type reentLogProc struct {
+	countLogProc
+	st *reentState
+}
+
+func (p *reentLogProc) OnEmit(ctx context.Context, r *sdklog.Record) error {
+	_ = p.countLogProc.OnEmit(ctx, r)
+	p.st.enter("onend")
+	return nil
+}
+func (p *reentLogProc) ForceFlush(ctx context.Context) error {
+	_ = p.countLogProc.ForceFlush(ctx)
+	p.st.enter("flush")
+	return nil
+}
+func (p *reentLogProc) Shutdown(ctx context.Context) error {
+	_ = p.countLogProc.Shutdown(ctx)
+	p.st.enter("shutdown")
+	return nil
+}
+
+type reentMetricExp struct {
+	countMetricExp
+	st *reentState
+}
+
+func (e *reentMetricExp) Shutdown(ctx context.Context) error {
+	err := e.countMetricExp.Shutdown(ctx)
+	e.st.enter("shutdown")
+	return err
+}
+
+// childReent: ops (start/end | emit | add, flush, shutdown; live contexts) on a provider one of whose components
+// calls provider methods from its callbacks, then a final Shutdown. Reported like a storm: Shutdown calls per
+// component afterwards, whether a fresh handle still records, the error classes of the explicit calls.
+func childReent(sc scenario) resultJ {
+	rec := &recorder{}
+	out := &syncBuf{}
+	ctx := context.Background()
+	st := &reentState{nest: sc.Nest}
+	var res resultJ
+	errs := map[string]bool{}
+	switch sc.Kinds[0] {
+	case "trace":
+		p0 := &reentSpanProc{countProc{id: 0, rec: rec}, st}
+		p1 := &countProc{id: 1, rec: rec}
+		p2 := &countProc{id: 2, rec: rec}
+		tp := sdktrace.NewTracerProvider(sdktrace.WithSpanProcessor(p0), sdktrace.WithSpanProcessor(p1))
+		reg2done := false
+		st.do = func(call string) {
+			switch call {
+			case "unreg0":
+				tp.UnregisterSpanProcessor(p0)
+			case "unreg1":
+				tp.UnregisterSpanProcessor(p1)
+			case "reg2":
+				if !reg2done { // one registration: each registration is shut down once
+					reg2done = true
+					tp.RegisterSpanProcessor(p2)
+				}
+			case "flush":
+				_ = tp.ForceFlush(ctx)
+			case "shutdown":
+				_ = tp.Shutdown(ctx)
+			default:
+				_, sp := tp.Tracer("nested").Start(ctx, "n")
+				sp.End()
+			}
+		}
+		tr := tp.Tracer("t")
+		var spans []trace.Span
+		for _, o := range append(append([]opJ{}, sc.Ops...), opJ{K: "shutdown"}) {
+			switch o.K {
+			case "start":
+				_, sp := tr.Start(ctx, "s")
+				spans = append(spans, sp)
+			case "end":
+				if o.P < len(spans) {
+					spans[o.P].End()
+				}
+			case "flush":
+				errs[errClass(tp.ForceFlush(ctx))] = true
+			case "shutdown":
+				errs[errClass(tp.Shutdown(ctx))] = true
+			}
+		}
+		_, sp := tp.Tracer("after").Start(ctx, "x")
+		res.FreshRec = sp.IsRecording()
+		res.StormKinds = []string{"PCount", "PCount", "PCount"}
+	case "log":
+		p0 := &reentLogProc{countLogProc{0, sdklog.NewSimpleProcessor(nil), rec}, st}
+		p1 := &countLogProc{1, sdklog.NewSimpleProcessor(nil), rec}
+		lp := sdklog.NewLoggerProvider(sdklog.WithProcessor(p0), sdklog.WithProcessor(p1))
+		var r otellog.Record
+		st.do = func(call string) {
+			switch call {
+			case "flush":
+				_ = lp.ForceFlush(ctx)
+			case "shutdown":
+				_ = lp.Shutdown(ctx)
+			default:
+				lp.Logger("nested").Emit(ctx, r)
+			}
+		}
+		l := lp.Logger("l")
+		for _, o := range append(append([]opJ{}, sc.Ops...), opJ{K: "shutdown"}) {
+			switch o.K {
+			case "start", "end":
+				l.Emit(ctx, r)
+			case "flush":
+				errs[errClass(lp.ForceFlush(ctx))] = true
+			case "shutdown":
+				errs[errClass(lp.Shutdown(ctx))] = true
+			}
+		}
+		res.StormKinds = []string{"LSimple XNil", "LSimple XNil"}
+	default: // metric: the periodic reader's exporter calls MeterProvider methods from its Shutdown
+		e, _ := stdoutmetric.New(stdoutmetric.WithWriter(out))
+		exp := &reentMetricExp{countMetricExp{id: 0, inner: e, rec: rec}, st}
+		rd := sdkmetric.NewPeriodicReader(exp, sdkmetric.WithInterval(time.Hour), sdkmetric.WithTimeout(sdkTimeout))
+		mp := sdkmetric.NewMeterProvider(sdkmetric.WithReader(rd))
+		st.do = func(call string) {
+			switch call {
+			case "flush":
+				_ = mp.ForceFlush(ctx)
+			default:
+				c, _ := mp.Meter("nested").Int64Counter("n")
+				c.Add(ctx, 1)
+			}
+		}
+		c, _ := mp.Meter("m").Int64Counter("c")
+		first := true
+		for _, o := range append(append([]opJ{}, sc.Ops...), opJ{K: "shutdown"}) {
+			switch o.K {
+			case "start", "end":
+				c.Add(ctx, 1)
+			case "flush":
+				if first {
+					errs[errClass(mp.ForceFlush(ctx))] = true
+				}
+			case "shutdown":
+				if first {
+					errs[errClass(mp.Shutdown(ctx))] = true // later Shutdown calls report ErrReaderShutdown (documented)
+					first = false
+				}
+			}
+		}
+		var rm metricdata.ResourceMetrics
+		res.FlushErr = errClass(rd.Collect(ctx, &rm))
+		res.StormKinds = []string{"RPeriodic XStd"}
+	}
+	calls, xcalls := rec.take()
+	res.Shutdowns = make([]int, 3)
+	for _, c := range calls {
+		if c.K == "KShutdown" && c.ID < 3 {
+			res.Shutdowns[c.ID]++
+		}
+	}
+	x := 0
+	for _, c := range xcalls {
+		if c.K == "KXShutdown" {
+			x++
+		}
+	}
+	res.XShutdowns = []int{x}
+	for e := range errs {
+		if e != "ENil" {
+			res.ShutErr = e
+		}
+	}
+	if res.ShutErr == "" {
+		res.ShutErr = "ENil"
+	}
+	return res
+}
+
+// reentCoq: trace -> CStorm (processors 0 and 1 registered up front: exactly one Shutdown each; processor 2 may be
+// registered by a nested call: at most one), log -> CStormL, metric -> CStormM.
+func reentCoq(sc scenario, res *resultJ) string {
+	switch sc.Kinds[0] {
+	case "trace":
+		return fmt.Sprintf("CStorm [PCount; PCount; PCount] 2 1 %s [0;0;0] 0 %v %s %s", intsCoq(res.Shutdowns), res.FreshRec, res.ShutErr, res.ShutErr)
+	case "log":
+		return fmt.Sprintf("CStormL [LSimple XNil; LSimple XNil] %s [0;0] [%s] []", intsCoq(res.Shutdowns[:2]), res.ShutErr)
+	}
+	return fmt.Sprintf("CStormM [RPeriodic XStd] %s [%s] [] [%s]", intsCoq(res.XShutdowns), res.ShutErr, res.FlushErr)
+}
+
+func genReent(r *vgen.Rand) scenario {
+	prov := vgen.Pick(r, []string{"trace", "trace", "trace", "log", "metric"})
+	sc := scenario{Kind: "reent", Kinds: []string{prov}}
+	var cbs, calls []string
+	switch prov {
+	case "trace":
+		cbs = []string{"shutdown", "shutdown", "onend", "flush"}
+		calls = []string{"unreg0", "unreg1", "reg2", "flush", "shutdown", "handle"}
+	case "log":
+		cbs = []string{"shutdown", "onend", "flush"}
+		calls = []string{"flush", "shutdown", "handle"}
+	default:
+		cbs = []string{"shutdown"}
+		calls = []string{"flush", "handle"}
+	}
+	for i := 0; i < r.Range(1, 4); i++ {
+		sc.Nest = append(sc.Nest, nestJ{CB: vgen.Pick(r, cbs), Call: vgen.Pick(r, calls)})
+	}
+	started := 0
+	for i := 0; i < r.Range(1, 7); i++ {
+		k := vgen.Pick(r, []string{"start", "end", "flush", "flush", "shutdown"})
+		o := opJ{K: k}
+		if k == "start" {
+			started++
+		}
+		if k == "end" {
+			if started == 0 {
+				o.K = "start"
+				started++
+			} else {
+				o.P = r.Intn(started)
+			}
+		}
+		sc.Ops = append(sc.Ops, o)
+	}
+	return sc
+}
+
+// ---- overlapping Shutdown callers with a slow exporter ----
+
+type slowSpanExp struct {
+	inner    sdktrace.SpanExporter
+	delay    time.Duration
+	xshut    atomic.Int64
+	late     atomic.Int64
+	returned *atomic.Bool
+}
+
+func (e *slowSpanExp) ExportSpans(ctx context.Context, s []sdktrace.ReadOnlySpan) error {
+	if e.returned.Load() {
+		e.late.Add(1)
+	}
+	time.Sleep(e.delay)
+	return e.inner.ExportSpans(ctx, s)
+}
+func (e *slowSpanExp) Shutdown(ctx context.Context) error {
+	time.Sleep(e.delay) // the exporter's own Shutdown is slow too, and counts when it is complete
+	err := e.inner.Shutdown(ctx)
+	e.xshut.Add(1)
+	return err
+}
+
+// childDSlow: sc.N rounds. A stock span processor whose exporter takes sc.Slow ms per export is registered with
+// a provider and has spans queued (batch) or being exported (simple, from OnEnd callers). Released together:
+// the provider's Shutdown, a direct Shutdown of the processor (and further ones), OnEnd callers. Every Shutdown
+// caller notes, the moment its call returned, how many exporter shutdowns have happened.
+func childDSlow(sc scenario) resultJ {
+	r := vgen.NewRand(sc.Seed)
+	merged := map[string]*roundJ{}
+	var order []string
+	ctx := context.Background()
+	for n := 0; n < sc.N; n++ {
+		var returned atomic.Bool
+		exp := &slowSpanExp{inner: tracetest.NewInMemoryExporter(), delay: time.Duration(sc.Slow) * time.Millisecond, returned: &returned}
+		var sp sdktrace.SpanProcessor
+		if strings.HasPrefix(sc.Kinds[0], "PSimple") {
+			sp = sdktrace.NewSimpleSpanProcessor(exp)
+		} else {
+			sp = sdktrace.NewBatchSpanProcessor(exp, batchSpanOpts(n)...)
+			for i := 0; i < r.Range(1, 3); i++ {
+				sp.OnEnd(endedSpan())
+			}
+		}
+		tp := sdktrace.NewTracerProvider(sdktrace.WithSpanProcessor(sp))
+		what := make([]int, sc.G) // 0 direct shutdown, 1 provider shutdown, 2 onend
+		for g := range what {
+			// ONE provider Shutdown (a second concurrent TracerProvider.Shutdown returns nil at once by design:
+			// its unlocked isShutdown check), any number of direct ones
+			what[g] = vgen.Pick(r, []int{0, 0, 2})
+			if g < 2 {
+				what[g] = g
+			}
+		}
+		atRet := make([]int, sc.G)
+		errs := make([]string, sc.G)
+		var start, wg sync.WaitGroup
+		start.Add(1)
+		for g := 0; g < sc.G; g++ {
+			wg.Add(1)
+			go func(g int) {
+				defer wg.Done()
+				start.Wait()
+				if g&1 == 1 {
+					time.Sleep(time.Duration(sc.Slow) * time.Millisecond / 3) // arrive while the first caller is exporting
+				}
+				var err error
+				switch what[g] {
+				case 0:
+					err = sp.Shutdown(ctx)
+				case 1:
+					err = tp.Shutdown(ctx)
+				default:
+					sp.OnEnd(endedSpan())
+					atRet[g] = -1
+					errs[g] = "ENil"
+					return
+				}
+				atRet[g] = int(exp.xshut.Load())
+				returned.Store(true)
+				errs[g] = errClass(err)
+			}(g)
+		}
+		start.Done()
+		wg.Wait()
+		rd := roundJ{}
+		for g := range atRet {
+			if atRet[g] >= 0 {
+				rd.XShut = append(rd.XShut, atRet[g])
+			}
+		}
+		sort.Ints(rd.XShut)
+		sort.Strings(errs)
+		for i, e := range errs {
+			if i == 0 || e != errs[i-1] {
+				rd.ShutErrs = append(rd.ShutErrs, e)
+			}
+		}
+		rd.PShut = []int{int(exp.late.Load())}
+		key := fmt.Sprint(rd.XShut, rd.ShutErrs, rd.PShut)
+		if m, ok := merged[key]; ok {
+			m.Count++
+		} else {
+			rd.Count = 1
+			merged[key] = &rd
+			order = append(order, key)
+		}
+	}
+	var res resultJ
+	for _, k := range order {
+		res.Rounds = append(res.Rounds, *merged[k])
+	}
+	return res
 }
